@@ -96,6 +96,7 @@ Ltac tstep_full H :=
   unfold tstep, norm_pc, mark, body_start in H; simpl in H; brk H;
   try (unfold exec, fresh_key, body_start in H; simpl in H; brk H);
   unfold panic_goto in H; simpl in H; brk H;
+  unfold acct_register, acct_ca in H; simpl in H; brk H;
   unfold fin_op, after_attempt, start_renew, start_obtain, body_start, after_pre,
     set_pc, set_cur, set_lkey, set_lcrt, set_nk, set_nc, set_seen, set_recd, is_async, with_sto, with_lks in H; simpl in H;
   brk H.
